@@ -301,14 +301,23 @@ def check_confinement(ctx, u, methods):
 def check_pixel_guard(ctx, u, methods):
     R = 'C07-R2'
     for f in methods:
-        if f.get('name') not in ('read_pixel', 'write_pixel') or len(params_of(f)) != 6:
+        if f.get('name') not in ('read_pixel', 'write_pixel') or len(params_of(f)) < 2:
             continue
+        full = len(params_of(f)) == 6
+        if not full and not any(is_data_member(x) for x in walk(body_of(f)) if x.get('kind') == 'MemberExpr'):
+            continue        # packed-colour overload that forwards to the six-argument form
         check_no_goto(f)
         key0 = sig(f).split('(')[0] + ('#r' if f.get('name') == 'read_pixel' else '#w')
         ctx.fn('Image::' + sig(f))
         px, py = params_of(f)[0], params_of(f)[1]
         subs = [x for x in walk(body_of(f)) if x.get('kind') == 'ArraySubscriptExpr' and is_data_member(x['inner'][0])]
-        ctx.require(len(subs) >= 16, '%s: pixel subscripts not found' % f.get('name'))
+        if full:
+            ctx.require(len(subs) >= 16, '%s: pixel subscripts not found' % f.get('name'))
+        elif not subs:
+            ctx.undecided(R, key0 + '|raw-access', f, '%s touches the pixel buffer without a subscript the rule can read' % sig(f))
+            continue
+        if not full:
+            key0 = sig(f) + ('#r' if f.get('name') == 'read_pixel' else '#w')
         cnt = {}
         for s in subs:
             obj, mem = is_data_member(s['inner'][0])
